@@ -1,31 +1,261 @@
 import Proofs.Steps
 /-
-  Frame facts: which tables each part of the block transaction can touch.
+  One structural proof for the whole block transaction: if every primitive table operation of
+  the block at height `h` respects a relation `R`, so does `blockTx`.  Property-specific
+  relations then only have to discharge the primitive obligations (`PrimsOK`).
 -/
 namespace Pegnet
 
-/-! ### subBal / recordTx only touch balances, relations and history -/
-
-theorem subBal_step {R : Rel DB} (P : Params) (a : Addr) (t : Ticker) (v : Nat)
+/-- `SubFromBalance` respects `R` when its two writes do (for relations that need no guard) -/
+theorem subBal_step_of {R : Rel DB} (P : Params) (a : Addr) (t : Ticker) (v : Nat)
     (hadd : Step R (addBal P a t 0)) (hdeb : Step R (debit a t v)) : Step R (subBal P a t v) := by
-  unfold subBal
-  step_tac
+  unfold subBal; step_tac
 
-/-- relation: the rate table is untouched -/
-abbrev keepRates : Rel DB := keepRel (·.rates)
-abbrev keepRels : Rel DB := keepRel (·.rels)
-abbrev keepAddrs : Rel DB := keepRel (·.addrs)
-abbrev keepHolding : Rel DB := keepRel (·.holding)
-abbrev keepBank : Rel DB := keepRel (·.bank)
-abbrev keepSync : Rel DB := keepRel (fun db => (db.synced, db.syncVersions))
+/-- the primitive table operations as the block at height `h` uses them -/
+structure PrimsOK (P : Params) (h : Nat) (R : Rel DB) : Prop where
+  addBal : ∀ a t v, Step R (addBal P a t v)
+  subBal : ∀ a t v, Step R (subBal P a t v)
+  insertRate : ∀ tok v, Step R (insertRate h tok v)
+  insertHistBatch : ∀ r, Step R (insertHistBatch r)
+  insertHistTx : ∀ r, Step R (insertHistTx r)
+  insertLookup : ∀ r, Step R (insertLookup r)
+  setExecuted : ∀ hash v, Step R (setExecuted hash v)
+  setConvertedAmount : ∀ hash i a, Step R (setConvertedAmount hash i a)
+  setPegConverted : ∀ hash i a o, Step R (setPegConverted hash i a o)
+  insertRelation : ∀ hash a i t c, Step R (insertRelation hash a i t c)
+  insertHolding : ∀ e keymr, Step R (insertHolding { entry := e, height := h, keymr := keymr })
+  insertBank : ∀ a, Step R (insertBank h a)
+  updateBank : ∀ bh u r, Step R (updateBank bh u r)
+  insertGrade : ∀ keymr sh v c n, Step R (insertGrade { height := h, keymr := keymr, shorthashes := sh, version := v, cutoff := c, count := n })
+  insertWinner : ∀ p e pay m a, Step R (insertWinner { height := h, position := p, entryhash := e, payout := pay, minerid := m, addrStr := a })
+  markSynced : ∀ v, Step R (markSynced h v)
+  rotate : Step R (M.guarded (fun _ => none) fun db => { db with snapPast := db.snapCur, snapCur := db.addrs })
+  touch : Step R (M.guarded (fun _ => none) fun db => { db with avgTouched := true })
 
-instance (P a t v) : StepPrim keepRates (subBal P a t v) := ⟨by unfold subBal; step_tac⟩
-instance (P a t v) : StepPrim keepRels (subBal P a t v) := ⟨by unfold subBal; step_tac⟩
-instance (P a t v) : StepPrim keepHolding (subBal P a t v) := ⟨by unfold subBal; step_tac⟩
-instance (P a t v) : StepPrim keepBank (subBal P a t v) := ⟨by unfold subBal; step_tac⟩
-instance (P a t v) : StepPrim keepSync (subBal P a t v) := ⟨by unfold subBal; step_tac⟩
+section
+variable {P : Params} {h : Nat} {R : Rel DB} (ok : PrimsOK P h R)
+include ok
 
-instance (P h hash rates avgs idx t) : StepPrim keepRates (recordTx P h hash rates avgs idx t) :=
-  ⟨by unfold recordTx; step_tac⟩
+/-- bring every primitive fact into the local context (for `apply_assumption`) -/
+syntax "prims " term : tactic
+macro_rules
+  | `(tactic| prims $ok) => `(tactic|
+    (have p1 := PrimsOK.addBal $ok; have p2 := PrimsOK.subBal $ok; have p3 := PrimsOK.insertRate $ok
+     have p4 := PrimsOK.insertHistBatch $ok; have p5 := PrimsOK.insertHistTx $ok; have p6 := PrimsOK.insertLookup $ok
+     have p7 := PrimsOK.setExecuted $ok; have p8 := PrimsOK.setConvertedAmount $ok; have p9 := PrimsOK.setPegConverted $ok
+     have p10 := PrimsOK.insertRelation $ok; have p11 := PrimsOK.insertHolding $ok; have p12 := PrimsOK.insertBank $ok
+     have p13 := PrimsOK.updateBank $ok; have p14 := PrimsOK.insertGrade $ok; have p15 := PrimsOK.insertWinner $ok
+     have p16 := PrimsOK.markSynced $ok; have p17 := PrimsOK.rotate $ok; have p18 := PrimsOK.touch $ok))
+
+/-! ### balances -/
+
+theorem subBal_step (a : Addr) (t : Ticker) (v : Nat) : Step R (subBal P a t v) := PrimsOK.subBal ok a t v
+
+/-! ### Batch.lean -/
+
+theorem recordOutputs_step (hash : Hash) (rates avgs : Option TMap) (idx : Nat) (t : Tx) :
+    Step R (recordOutputs P h hash rates avgs idx t) := by
+  prims ok
+  unfold recordOutputs; step_tac
+
+theorem recordTx_step (hash : Hash) (rates avgs : Option TMap) (idx : Nat) (t : Tx) :
+    Step R (recordTx P h hash rates avgs idx t) := by
+  prims ok
+  have c1 := subBal_step ok
+  have c2 := recordOutputs_step ok
+  unfold recordTx; step_tac
+
+theorem recordBatch_step (hash : Hash) (rates avgs : Option TMap) (txs : List Tx) :
+    Step R (recordBatch P h hash rates avgs txs) := by
+  have c1 := recordTx_step ok
+  unfold recordBatch; step_tac
+
+theorem applyBatch_step (e : TxEntry) (rates avgs : Option TMap) : Step R (applyBatch P h e rates avgs) := by
+  have c1 := recordBatch_step ok
+  unfold applyBatch; step_tac
+
+theorem payPegReq_step (rates : TMap) (r : PegReq) (y : Nat) : Step R (payPegReq P h rates r y) := by
+  prims ok
+  unfold payPegReq; step_tac
+
+theorem recordPegRequests_step (rates avgs : TMap) (bs : List TxEntry) (bank : Nat) (bh : Int) :
+    Step R (recordPegRequests P h rates avgs bs bank bh) := by
+  prims ok
+  have c1 := payPegReq_step ok
+  unfold recordPegRequests; step_tac
+
+/-! ### Sync.lean -/
+
+theorem mintTokens_step : Step R (mintTokens P) := by
+  prims ok
+  unfold mintTokens; step_tac
+
+theorem nullifyMinted_step (c : DB) : Step R (nullifyMinted P c) := by
+  have c1 := subBal_step ok
+  unfold nullifyMinted; step_tac
+
+theorem insertZeroingCoinbase_step (txid : String) (i hh : Nat) (ts : Int) (payout : Nat) (asset : String) (a : Addr) :
+    Step R (insertZeroingCoinbase txid i hh ts payout asset a) := by
+  prims ok
+  unfold insertZeroingCoinbase; step_tac
+
+theorem nullifyBurnLoop_step (c : DB) (hh : Nat) (ts : Int) (a : Addr) (i j : Nat) (ts' : List Ticker) :
+    Step R (nullifyBurnLoop P c hh ts a i j ts') := by
+  have c1 := subBal_step ok
+  have c2 := insertZeroingCoinbase_step ok
+  induction ts' generalizing i j with
+  | nil => unfold nullifyBurnLoop; step_tac
+  | cons t rest ih =>
+    unfold nullifyBurnLoop
+    step_tac
+
+theorem nullifyBurn_step (c : DB) (hh : Nat) (ts : Int) : Step R (nullifyBurn P c hh ts) := by
+  unfold nullifyBurn
+  exact nullifyBurnLoop_step ok ..
+
+theorem insertGradeBlock_step (keymr : String) (g : OprGraded) : Step R (insertGradeBlock h keymr g) := by
+  prims ok
+  unfold insertGradeBlock; step_tac
+
+theorem insertRates_step (c : DB) (assets : List (String × Nat)) (phase : Phase) :
+    Step R (insertRates P c h assets phase) := by
+  prims ok
+  unfold insertRates; step_tac
+
+theorem snapshotPayouts_step (ts : Int) (rates : TMap) (order : List Addr) :
+    Step R (snapshotPayouts P h ts rates order) := by
+  prims ok
+  unfold snapshotPayouts; step_tac
+
+theorem devPayoutLoop_step (ts : Int) (i j : Nat) (l : List (Addr × Nat)) :
+    Step R (devPayoutLoop P h ts i j l) := by
+  prims ok
+  induction l generalizing i j with
+  | nil => unfold devPayoutLoop; step_tac
+  | cons d rest ih =>
+    unfold devPayoutLoop
+    step_tac
+
+theorem developersPayouts_step (ts : Int) : Step R (developersPayouts P h ts) := by
+  unfold developersPayouts; exact devPayoutLoop_step ok ..
+
+theorem recordHistory_step (bo : Nat) (e : TxEntry) : Step R (recordHistory P h bo e) := by
+  prims ok
+  unfold recordHistory; step_tac
+
+theorem applyTxEntry_step (keymr : String) (bo : Nat) (e : TxEntry) : Step R (applyTxEntry P h keymr bo e) := by
+  prims ok
+  have c1 := recordHistory_step ok
+  have c2 := applyBatch_step ok
+  unfold applyTxEntry; step_tac
+
+theorem applyTransactionBlock_step (keymr : String) (es : List TxEntry) :
+    Step R (applyTransactionBlock P h keymr es) := by
+  have c1 := applyTxEntry_step ok
+  unfold applyTransactionBlock; step_tac
+
+theorem applyHeld_step (rates avgs : TMap) (e : TxEntry) : Step R (applyHeld P h rates avgs e) := by
+  prims ok
+  have c2 := applyBatch_step ok
+  unfold applyHeld; step_tac
+
+theorem applyHolding_step (c : DB) (rates avgs : TMap) (fromH : Nat) :
+    Step R (applyHolding P c h rates avgs fromH) := by
+  have c1 := applyHeld_step ok
+  have c2 := recordPegRequests_step ok
+  unfold applyHolding; step_tac
+
+theorem applyFactoidBlock_step (rcd : Addr) (fcts : List FctTx) : Step R (applyFactoidBlock P h rcd fcts) := by
+  prims ok
+  unfold applyFactoidBlock; step_tac
+
+theorem applyGradedOPR_step (oh ts : Int) (ws : List OprW) : Step R (applyGradedOPR P oh ts ws) := by
+  prims ok
+  unfold applyGradedOPR; step_tac
+
+theorem applyGradedSPR_step (oh ts : Int) (ws : List SprW) : Step R (applyGradedSPR P oh ts ws) := by
+  prims ok
+  unfold applyGradedSPR; step_tac
+
+end
+
+/-! ### the block -/
+
+theorem gradeAndRates_step {P : Params} {R : Rel DB} (c : DB) (b : Block) (ok : PrimsOK P b.height R) :
+    Step R (gradeAndRates P c b) := by
+  have c1 := insertGradeBlock_step ok
+  have c2 := insertRates_step ok
+  unfold gradeAndRates; step_tac
+
+section
+variable {P : Params} {R : Rel DB} (c : DB) (b : Block) (avgs : TMap) (ok : PrimsOK P b.height R)
+include ok
+
+theorem preAdjust_step : Step R (preAdjust P c b.height) := by
+  have c2 := mintTokens_step ok
+  have c3 := nullifyMinted_step ok
+  unfold preAdjust; step_tac
+
+theorem sprPanicCheck_step : Step R (sprPanicCheck b) := by
+  unfold sprPanicCheck; step_tac
+
+theorem snapshotPhase_step : Step R (snapshotPhase P b) := by
+  have c4 := snapshotPayouts_step ok
+  unfold snapshotPhase; step_tac
+
+theorem holdingPhase_step (ra : Bool) : Step R (holdingPhase P c b avgs ra) := by
+  prims ok
+  have c5 := applyHolding_step ok
+  unfold holdingPhase; step_tac
+
+theorem txBlockPhase_step : Step R (txBlockPhase P b) := by
+  have c6 := applyTransactionBlock_step ok
+  unfold txBlockPhase; step_tac
+
+theorem txPhase_step (ra : Bool) : Step R (txPhase P c b avgs ra) := by
+  have c1 := snapshotPhase_step b ok
+  have c2 := holdingPhase_step c b avgs ok
+  have c3 := txBlockPhase_step b ok
+  unfold txPhase; step_tac
+
+theorem oprRewardPhase_step : Step R (oprRewardPhase P b) := by
+  have c8 := applyGradedOPR_step ok
+  unfold oprRewardPhase; step_tac
+
+theorem sprRewardPhase_step : Step R (sprRewardPhase P b) := by
+  have c9 := applyGradedSPR_step ok
+  unfold sprRewardPhase; step_tac
+
+theorem devRewardPhase_step : Step R (devRewardPhase P b) := by
+  have c10 := developersPayouts_step ok
+  unfold devRewardPhase; step_tac
+
+theorem rewardPhase_step : Step R (rewardPhase P b) := by
+  have c7 := applyFactoidBlock_step ok
+  have c1 := oprRewardPhase_step b ok
+  have c2 := sprRewardPhase_step b ok
+  have c3 := devRewardPhase_step b ok
+  unfold rewardPhase; step_tac
+
+theorem syncBlock_step : Step R (syncBlock P c b avgs) := by
+  have c1 := gradeAndRates_step c b ok
+  have c2 := preAdjust_step c b ok
+  have c3 := sprPanicCheck_step (P := P) b ok
+  have c4 := txPhase_step c b avgs ok
+  have c5 := rewardPhase_step b ok
+  unfold syncBlock; step_tac
+
+theorem burnZeroing_step : Step R (burnZeroing P c b) := by
+  have c2 := nullifyBurn_step ok
+  unfold burnZeroing; step_tac
+
+/-- every step of the block transaction respects `R` -/
+theorem blockTx_step : Step R (blockTx P c b avgs) := by
+  prims ok
+  have c1 := syncBlock_step c b avgs ok
+  have c2 := burnZeroing_step c b ok
+  unfold blockTx; step_tac
+
+end
 
 end Pegnet
